@@ -242,10 +242,14 @@ def check(run: lib.Run, audit: dict) -> int:
         raise lib.CheckError(f"Lean build/audit failed at {audit['stage']}: {audit.get('log') or audit.get('forbidden') or audit.get('bad_axioms')}")
     # the decision core as it is written NOW, translated into Lean, is proved equal to the model's (per-run obligation)
     ok_tr, ok_py, detail, tr = translated_obligation(run, audit)
-    run_cases(run, audit, scale=run.boost * (1 if ok_tr else 2))
+    # … and the decision dispatch `_decide_async` (compiled function, fallback to the interpreters, exceptions propagate) is proved to be
+    # the model's `guardDecide` when `self.policy` is one value (the comparison with CPython is C09's)
+    from props import c09
+    ok_dec, _, detail_dec = c09.decide_obligation(run, audit, differential=False)
+    run_cases(run, audit, scale=run.boost * (1 if ok_tr and ok_dec else 2))
     deep_condition_probes(run)
     violations = []
-    if (run.disagreements or not ok_tr) and not run.spec_failures:
+    if (run.disagreements or not ok_tr or not ok_dec) and not run.spec_failures:
         run_cases(run, audit, scale=4)
     if run.spec_failures:
         path = run.write_replay("spec", {"what": "the implementation's decision contradicts C01 (Rbacx.Spec.c01)", "case": run.spec_failures[0],
@@ -258,6 +262,14 @@ def check(run: lib.Run, audit: dict) -> int:
                                                "C07.c07_guard_* are about; the widened search found no policy and request on which the decision "
                                                "contradicts C01",
                                                "translation": tr, "lean": detail[-1500:], "first_disagreement": run.disagreements[:1]})
+        violations.append((path, False))
+    elif not ok_dec:
+        path = run.write_replay("obligation", {"what": "per-run obligation Rbacx/Run/C09_decide_translated.lean no longer checks: the translated source of "
+                                               "Guard._decide_async is not proved to be the model's guardDecide (the compiled function's answer; if it is "
+                                               "absent or raises, the set / single-policy interpreter chosen by `\"policies\" in policy`; an interpreter's "
+                                               "exception propagates), the function theorems Rbacx.C01.* are about; the widened search found no policy and "
+                                               "request on which the decision contradicts C01",
+                                               "lean": detail_dec[-1500:], "first_disagreement": run.disagreements[:1]})
         violations.append((path, False))
     elif not ok_py or any(d.get("part") == "translated source vs python" for d in run.disagreements):
         first = next((d for d in run.disagreements if d.get("part") == "translated source vs python"),
